@@ -180,6 +180,10 @@ where go : List String → String
         | some inst => s!"ok {inst.getter} {boolStr inst.external} {showKeys inst.keys}"
       | _, _, _, _, _, _, _ => "bad-op"
     | _ => "bad-op"
+  | "ek" :: names =>
+    match names.mapM (fun t => unhexStr (t.drop 1).toString) with
+    | some ns => let f := ekuFilter ns; if f.isEmpty then "-" else String.intercalate "," f
+    | none => "bad-op"
   | ["gs", fz, mir, backend, stor, sign] =>
     let fz? : Option (Option Sth) := if fz = "-" then some none else (sth? (fz.splitOn ":")).map some
     let be? : Option (Option Sth) := if backend = "e" then some none else (parseNat? backend).map fun n => some ⟨n, 1, List.replicate 32 0, []⟩
